@@ -49,9 +49,14 @@ let parse_cout (c : string list) =
 
 let sres_str f = function SrOk a -> f a | SrNoFuel -> "NOFUEL" | SrInexact -> "INEXACT-DIVISION"
 
-let run_sr v ptxt qtxt extra cout =
+(* modulus = None: context over Z.  modulus = Some M (prime): context over Z_M; operands and all reference results are
+   reduced coefficientwise into the symmetric range (reduction Z[params] -> Z_M[params] is a ring morphism, so the reduced
+   Sylvester determinants of the reduced operands ARE the determinants over Z_M: Properties_C04.C04_ring_morphism_commutes) *)
+let run_sr (modulus : z option) v ptxt qtxt extra cout =
   let xv = n_of_int (int_of_string v) in
-  let pp = mpoly_of_string ptxt and qq = mpoly_of_string qtxt in
+  let red (x : mpoly) : mpoly = match modulus with None -> x | Some _ -> mp_map_coeff (ring_norm modulus) x in
+  let str x = string_of_mpoly (red x) in
+  let pp = red (mpoly_of_string ptxt) and qq = red (mpoly_of_string qtxt) in
   let p = mp_coeffs xv pp and q = mp_coeffs xv qq in
   let m = List.length p - 1 and n = List.length q - 1 in
   if m < 1 || n < 1 then "SKIP constant operand" else
@@ -78,7 +83,8 @@ let run_sr v ptxt qtxt extra cout =
     else List.iteri (fun k (g, w) -> if g <> w then err (Printf.sprintf "%s[%d]: libpoly %s, reference %s" name k g w)) (List.combine got want) in
   cmp_list "psc" psc psc_ref; cmp_list "psc(used outputs)" pscu psc_ref;
   cmp_list "subres" sub sub_ref; cmp_list "subres(used outputs)" subu sub_ref;
-  (* ---- faithful model vs reference *)
+  (* ---- faithful model vs reference (the model is the integer-coefficient algorithm: contexts over Z only) *)
+  if modulus = None then begin
   let cp_str (c : mpoly list) = str (of_coeffs xv c) in
   let m_res = sres_str cp_str (sr_lp_resultant fuel p q) in
   if m_res <> res_ref then err (Printf.sprintf "faithful model resultant %s, reference %s" m_res res_ref);
@@ -89,9 +95,10 @@ let run_sr v ptxt qtxt extra cout =
   (match sr_lp_subres fuel p q with
    | SrOk l -> let l = List.map cp_str l in
      if l <> sub_ref then err (Printf.sprintf "faithful model subres [%s], reference [%s]" (String.concat "; " l) (String.concat "; " sub_ref))
-   | e -> err ("faithful model subres: " ^ sres_str (fun _ -> "") e));
+   | e -> err ("faithful model subres: " ^ sres_str (fun _ -> "") e))
+  end;
   (* ---- integer instance (the one tied to MathComp's resultant) on purely univariate inputs *)
-  if all_const p && all_const q then begin
+  if modulus = None && all_const p && all_const q then begin
     let pz = List.map const_of p and qz = List.map const_of q in
     let (hz, lz) = if m < n then (qz, pz) else (pz, qz) in
     if string_of_z (resultant_Z pz qz) <> res_ref then err "Z instance of the reference differs from the mpoly instance (resultant)";
@@ -120,7 +127,7 @@ let run_sr v ptxt qtxt extra cout =
       (* the determinant commutes with the specialisation (formal degrees kept) *)
       let rz = resultant_Z ps qs in
       if rz <> r then err (Printf.sprintf "specialisation %s: resultant value %s, Sylvester determinant of the specialised lists %s"
-                             tok (string_of_z r) (string_of_z rz))) extra;
+                             tok (string_of_z r) (string_of_z rz))) (if modulus = None then extra else []);
   match !errs with
   | [] -> "CHECK ok"
   | l -> "CHECK fail " ^ String.concat " | " (List.rev l)
@@ -146,7 +153,8 @@ let run (toks : string list) (cout : string list) : string =
   let toks = List.filter (fun t -> String.length t = 0 || t.[0] <> '#') toks in
   try
     match toks with
-    | "sr" :: v :: p :: q :: extra -> run_sr v p q extra cout
+    | "sr" :: v :: p :: q :: extra -> run_sr None v p q extra cout
+    | "srp" :: m :: v :: p :: q :: extra -> run_sr (Some (z_of_string m)) v p q extra cout
     | ["disc"; v; p] -> run_disc v p cout
     | _ -> "UNKNOWN case"
   with Failure s -> "CHECK fail malformed output: " ^ s
